@@ -1,5 +1,4 @@
 use vstd::prelude::*;
-use std::collections::BTreeMap;
 verus! {
 
 #[derive(Clone, Copy, PartialEq, Eq, PartialOrd, Ord)]
@@ -27,52 +26,86 @@ macro_rules! err_type_error {
     ($self:expr, $span:expr, $($rest:tt)*) => { Err(opaque_errs($span)) };
 }
 
-// ---- spec: the operator table, written from the property statement ----
-pub open spec fn add_ok(tc: TypeChecker, a: TyID, b: TyID, d: nat) -> bool decreases d {
+pub type TcView = Map<TyID, Type>;
+
+// the `+` table, from the property statement
+pub open spec fn add_ok(m: TcView, a: TyID, b: TyID, d: nat) -> bool decreases d {
     if d == 0 { true } else {
-        match (tc.ty_of(a), tc.ty_of(b)) {
+        match (m[a], m[b]) {
             (Type::Unknown, _) => true,
             (_, Type::Unknown) => true,
             (Type::Float, Type::Float) => true,
             (Type::Int, Type::Int) => true,
             (Type::Str, Type::Str) => true,
             (Type::Tuple(x), Type::Tuple(y)) => x.len() == y.len()
-                && forall|i: int| 0 <= i < x.len() ==> add_ok(tc, #[trigger] x[i], y[i], (d - 1) as nat),
+                && forall|i: int| 0 <= i < x.len() ==> #[trigger] add_ok(m, x[i], y[i], (d - 1) as nat),
             _ => false,
         }
     }
 }
 
+
+pub open spec fn add_ok_all(m: TcView, a: TyID, b: TyID) -> bool { forall|d: nat| add_ok(m, a, b, d) }
+
+proof fn lemma_elem(m: TcView, a: TyID, b: TyID, k: int)
+    requires m[a] is Tuple, m[b] is Tuple, 0 <= k < m[a]->Tuple_0.len(), m[a]->Tuple_0.len() == m[b]->Tuple_0.len(),
+    ensures add_ok_all(m, a, b) ==> add_ok_all(m, m[a]->Tuple_0[k], m[b]->Tuple_0[k])
+{
+    if add_ok_all(m, a, b) {
+        assert forall|d: nat| add_ok(m, m[a]->Tuple_0[k], m[b]->Tuple_0[k], d) by {
+            assert(add_ok(m, a, b, d + 1));
+        }
+    }
+}
+
+proof fn lemma_intro(m: TcView, a: TyID, b: TyID)
+    requires m[a] is Tuple, m[b] is Tuple, m[a]->Tuple_0.len() == m[b]->Tuple_0.len(),
+        forall|i: int| 0 <= i < m[a]->Tuple_0.len() ==> #[trigger] add_ok_all(m, m[a]->Tuple_0[i], m[b]->Tuple_0[i]),
+    ensures add_ok_all(m, a, b)
+{
+    assert forall|d: nat| add_ok(m, a, b, d) by {
+        if d > 0 {
+            assert forall|i: int| 0 <= i < m[a]->Tuple_0.len() implies #[trigger] add_ok(m, m[a]->Tuple_0[i], m[b]->Tuple_0[i], (d - 1) as nat) by {
+                assert(add_ok_all(m, m[a]->Tuple_0[i], m[b]->Tuple_0[i]));
+            }
+        }
+    }
+}
+
 impl TypeChecker {
-    pub uninterp spec fn ty_of(&self, a: TyID) -> Type;
+    pub uninterp spec fn tyv(&self) -> TcView;
 
     #[verifier::external_body]
     fn find_type(&mut self, a: TyID) -> (r: Type)
-        ensures r == old(self).ty_of(a), forall|x: TyID| final(self).ty_of(x) == old(self).ty_of(x)
+        ensures r == old(self).tyv()[a], final(self).tyv() == old(self).tyv()
     { unimplemented!() }
 
     #[verifier::exec_allows_no_decreases_clause]
     fn add(&mut self, span: Span, ctx: TypeCtx, a: TyID, b: TyID) -> (r: TypeResult<()>)
         ensures
-            forall|x: TyID| final(self).ty_of(x) == old(self).ty_of(x),
-            r is Ok ==> forall|d: nat| add_ok(*old(self), a, b, d),
-            r is Err ==> exists|d: nat| !add_ok(*old(self), a, b, d),
+            final(self).tyv() == old(self).tyv(),
+            r is Ok <==> add_ok_all(old(self).tyv(), a, b),
             r is Err ==> r->Err_0.len() >= 1 && r->Err_0[0].span == span,
     {
+        /*@entry*/ let ghost m = self.tyv(); let ghost a_id = a; let ghost b_id = b;
+        /*@entry*/ proof { assert(add_ok_all(m, a_id, b_id) ==> add_ok(m, a_id, b_id, 1)); }
         match (self.find_type(a), self.find_type(b)) {
             (Type::Unknown, _) | (_, Type::Unknown) => Ok(()),
 
             (Type::Float, Type::Float) | (Type::Int, Type::Int) | (Type::Str, Type::Str) => Ok(()),
 
             (Type::Tuple(a), Type::Tuple(b)) if a.len() == b.len() => {
-                let ghost xs = a@; let ghost ys = b@;
+                /*@before loop 1*/ let ghost xs = a@; let ghost ys = b@;
                 for (a, b) in it: a.iter().zip(b.iter())
                     invariant
-                        forall|x: TyID| self.ty_of(x) == old(self).ty_of(x),
-                        forall|i: int, d: nat| 0 <= i < it.index@ ==> #[trigger] add_ok(*old(self), xs[i], ys[i], d),
+                        self.tyv() == m, xs.len() == ys.len(),
+                        xs == m[a_id]->Tuple_0@, ys == m[b_id]->Tuple_0@, m[a_id] is Tuple, m[b_id] is Tuple,
+                        forall|i: int| 0 <= i < it.index@ ==> #[trigger] add_ok_all(m, xs[i], ys[i]),
                 {
+                    /*@loop 1 body start*/ proof { lemma_elem(m, a_id, b_id, it.index@); }
                     self.add(span, ctx, *a, *b)?;
                 }
+                /*@after loop 1*/ proof { lemma_intro(m, a_id, b_id); }
                 Ok(())
             }
 
